@@ -38,6 +38,28 @@ def parse_pdu_request_consistency(m: Model, r: Report, rid: str) -> None:
                                for n in ast.walk(s))
             r.check(sid_fallback, rid, f"{pp.qualname}#raw-fallback-service-id",
                     "the raw-request fallback does not compare response.service_id with request.service_id", loc=pp.loc)
+    # the service-id-only comparison replaces the typed matcher exactly for raw (re-parsed) requests with a non-negative reply
+    from sa import miniterp
+    raw_ifs = [s_ for s_ in ifs if "RawRequest" in ast.unparse(s_.test)]
+    if len(raw_ifs) == 1:
+        resp_names = {n.func.value.id for n in ast.walk(raw_ifs[0]) if isinstance(n, ast.Call) and isinstance(n.func, ast.Attribute) and n.func.attr == "matches"
+                      and isinstance(n.func.value, ast.Name)}
+        bad = []
+        for pk in ("RawRequest", "TypedRequest"):
+            for rk in ("NegativeResponse", "RawPositiveResponse", "TypedPositiveResponse"):
+                def oracle(call, env, pk=pk, rk=rk):
+                    if ast.unparse(call.func) == "isinstance" and len(call.args) == 2 and isinstance(call.args[0], ast.Name):
+                        names = [ast.unparse(x).split(".")[-1] for x in (call.args[1].elts if isinstance(call.args[1], ast.Tuple) else [call.args[1]])]
+                        if call.args[0].id in resp_names:
+                            return rk in names
+                        return pk in names          # the caller's object and its re-parse are not distinguished here (same-parsed-request does that)
+                    return NotImplemented
+                taken = bool(miniterp.eval_expr(raw_ifs[0].test, {}, oracle))
+                if taken != (pk == "RawRequest" and rk != "NegativeResponse"):
+                    bad.append(f"request re-parses as {pk}, reply is a {rk} -> {'service id only' if taken else 'typed matcher'}")
+        r.check(not bad, rid, f"{pp.qualname}#fallback-condition",
+                f"{bad}: only a request that re-parses as raw may be matched by service id alone; every other pair goes through matches() (for undecodable "
+                "positive replies that is RawPositiveResponse.matches with the echo heuristic)", loc=pp.loc)
     r.check(okc, rid, f"{pp.qualname}#same-parsed-request",
             f"{detail}; both must use the dynamically parsed request {parsed_var}: otherwise typed replies to raw requests are only "
             "compared by service id (stale identifiers accepted) or typed requests that re-parse as raw are refused", loc=pp.loc)
@@ -109,3 +131,47 @@ def busy_last_attempt(m: Model, r: Report, rid: str) -> None:
             inner.body and isinstance(inner.body[0], ast.Return) and isinstance(inner.body[0].value, ast.Name)
     r.check(ok, rid, f"{fn.qualname}#busy-last-attempt", "busyRepeatRequest on the last attempt must be returned to the caller "
             "(scanners classify it as 'the service answers'; as a MissingResponse it is logged as a timeout and the service is not reported)", loc=fn.loc)
+
+
+def iso_tables(m: Model, r: Report, rid: str, what: str = "both") -> None:
+    """The numeric values of UDSErrorCodes / UDSIsoServices equal the ISO 14229-1 tables (a wrong entry makes a genuine reply undecodable
+    and a reserved value acceptable, or routes a service to the wrong classes)."""
+    from sa.oracles import iso14229
+    CONST = "gallia.services.uds.core.constants"
+    for cname, table in (("UDSErrorCodes", iso14229.NRC), ("UDSIsoServices", iso14229.SERVICE_IDS)):
+        if what != "both" and what != cname:
+            continue
+        c = m.require_class(f"{CONST}.{cname}")
+        mem = m.enum_members(c)
+        if not mem:
+            raise AnalysisError(f"{c.qualname}: enum members not found")
+        wrong = {k: (mem.get(k), v) for k, v in table.items() if mem.get(k) != v}
+        r.check(not wrong, rid, f"{c.qualname}#iso-values",
+                "; ".join(f"{k} = {got if got is None else hex(got)} (ISO 14229-1: {want:#04x})" for k, (got, want) in sorted(wrong.items())[:4]), loc=c.loc)
+        dup = {}
+        for k, v in mem.items():
+            dup.setdefault(v, []).append(k)
+        clash = {hex(v): ks for v, ks in dup.items() if len(ks) > 1 and isinstance(v, int)}
+        r.check(not clash, rid, f"{c.qualname}#distinct-values", f"several names share a value (later ones become aliases): {clash}", loc=c.loc)
+
+
+def reconnect_unsafe_rule(m: Model, r: Report, rid: str) -> None:
+    """UDSClient.reconnect_unsafe always asks the transport to reconnect (no shortcut on locally kept state: a connection lost by the peer
+    leaves is_closed False), hands its timeout through unchanged (None selects the transport's own retry window) and adopts the result."""
+    from sa.cfg import CFG
+    from sa import transport_rules as tr
+    ru = m.require_function("gallia.services.uds.core.client.UDSClient.reconnect_unsafe")
+    g = CFG(ru.node)
+    calls = [n for n in ast.walk(ru.node) if isinstance(n, ast.Call) and ast.unparse(n.func) == "self.transport.reconnect"]
+    nodes = {n.id for n in g.nodes.values() if n.kind == "stmt" and isinstance(n.ast, ast.Assign) and ast.unparse(n.ast.targets[0]) == "self.transport"
+             and any(c is x for c in calls for x in ast.walk(n.ast))}
+    ok, path = g.must_pass(g.entry, nodes, {g.exit_return}) if nodes else (False, [])
+    r.check(ok, rid, f"{ru.qualname}#always-reconnects",
+            "reconnect_unsafe can return without `self.transport = await self.transport.reconnect(...)`: the retry is then sent on the dead connection"
+            + (": " + " -> ".join(repr(g.nodes[p]) for p in path[-3:]) if path else ""), loc=ru.loc)
+    tpar = ru.params()[1] if len(ru.params()) > 1 else "timeout"
+    for c in calls:
+        args = [ast.unparse(a) for a in c.args] + [f"{k.arg}={ast.unparse(k.value)}" for k in c.keywords]
+        r.check(args in ([tpar], [f"timeout={tpar}"]), rid, f"{ru.qualname}#timeout-unchanged",
+                f"the transport's reconnect() receives {args}: the caller's timeout must be passed on unchanged (None lets the transport choose its retry window, "
+                "e.g. 10 s for DoIP)", loc=ru.loc)
